@@ -15,7 +15,7 @@ fn eq_bytes(a: &[u8], b: &[u8]) -> bool {
     true
 }
 
-// C16: absolute path of a URI -- all ASCII URIs of length <= 9
+// C16: absolute path of a URI -- all UTF-8 URIs of length <= 9 bytes over the property's alphabet
 const U: usize = 9;
 #[kani::proof]
 #[kani::unwind(12)]
@@ -23,9 +23,11 @@ fn uri_abs_path() {
     let buf: [u8; U] = kani::any();
     let len: usize = kani::any();
     kani::assume(len <= U);
+    // the property's alphabet: {h,t,p,:,/,a,.,%,U+00E9}; U+00E9 is the two bytes C3 A9
     let mut i = 0;
     while i < U {
-        kani::assume(buf[i] < 0x80);
+        let c = buf[i];
+        kani::assume(c == b'h' || c == b't' || c == b'p' || c == b':' || c == b'/' || c == b'a' || c == b'.' || c == b'%' || c == 0xC3 || c == 0xA9);
         i += 1;
     }
     let s = match std::str::from_utf8(&buf[..len]) {
